@@ -33,7 +33,14 @@ R2-R7 are decided on CLOSED VALUES (class Values): a returned component is
     taken apart, repository helpers with a straight-line body replaced by what
     they return - and put in one canonical spelling (np./numpy., method vs
     function, keyword vs positional, list vs tuple displays, `.flatten()` after
-    boolean-mask indexing, `0 != x`, `np.logical_not`).  A rule then reads the
+    boolean-mask indexing, `0 != x`, `np.logical_not`).  A local that holds an
+    ACCUMULATOR OBJECT of a plain repository class (every instance creates its
+    own empty list in __init__ / default_factory; `add(x)`-style methods only
+    append their argument; bound once, filled by statements of the same block,
+    never handed on) closes to a record with the list written out, so
+    `parts.add(a); parts.add(b); parts.joined()` reads like the hand-written
+    join (`zip(*rows)` taken apart by position).  A list in the class body is
+    one shared object and is never closed that way.  A rule then reads the
     value, not the text, so extracting / inlining / renaming / hoisting /
     reordering cannot change its verdict.  A form that is not recognised is
     exit 2; a recognised value of the wrong kind in a slot is a violation.
@@ -87,6 +94,17 @@ R6  forwarding: at every call into the module made by the three entry points,
     travel in a record, the same holds for every field of the record that an
     array returned by the callee is cut from.
 R7  cell look-ups (shared with C05-R8): see c05.rule_lookup.
+R8  crossing segment (shared with C05-R10, c05.rule_crossing_index, run under
+    this property's rule id): the element that R1 splits in proportion to the
+    two part lengths is the segment that crosses.  The crossing flags are signed
+    (+1 westward, -1 eastward), so every position derived from them - in the
+    entry point, in a helper that returns (count, index, sign), passed on as a
+    parameter - is the position of the first NON-ZERO flag, the sign is read at
+    that same position and whole-array tests of the flags test `!= 0`.
+    argmax / argmin of the signed flags or a one-sided test finds one direction
+    only: for the other the trajectory is cut at a segment that does not cross
+    and the real crossing segment is gridded as a map line around the globe,
+    whose pieces add up to many times the segment's value.
 """
 
 from __future__ import annotations
@@ -99,6 +117,7 @@ from ..algebra import AlgebraError, normal_form, poly_equal, Rat
 from ..astutil import (MUTATING_METHODS, ancestors, assigned_names, call_name, calls_in, conjuncts, const_value, guards_of,
                        is_within, kwarg, names_in, norm, single_def_value, stmt_of, stores_to, walk_no_nested)
 from ..cfg import CFG
+from ..loader import parent as _parent
 from ..resolve import resolve_call
 
 GRID = 'gridding/grid.py'
@@ -1280,7 +1299,12 @@ class Values:
         if n.id in view.params and view.entry_reaches(at, n.id):
             vals.append(keep)
         if plain_only is None and (any(self._binds(d, n.id) is None for d in ds) or self._aliased_then_altered(view, n.id, ds, at)):
-            # altered in place after it was bound: opaque (rules that know what the alteration is ask `plain_of`)
+            # altered in place after it was bound: opaque (rules that know what the alteration is ask `plain_of`) - unless
+            # it is an accumulator object of a repository class whose whole life is visible here
+            acc = self._accumulator(fi, n.id, ds, at, stack, depth)
+            if acc is not None:
+                self._memo[key] = acc
+                return tcopy(acc)
             mk = f'{n.id}@{fi.qualname}:{",".join(str(d.lineno) for d in ds)}'
             self._muts[mk] = (fi, n.id, ds, stack)
             out = _mk(MUT, ast.Constant(mk))
@@ -1307,6 +1331,184 @@ class Values:
             out = _mk(ALT, *uniq)
         self._memo[key] = out
         return tcopy(out)
+
+    # ---- accumulator objects ----------------------------------------------------------------------------------
+    @staticmethod
+    def _fresh_list(v):
+        return (isinstance(v, ast.List) and not v.elts) or (isinstance(v, ast.Call) and call_name(v) == 'list' and not v.args and not v.keywords)
+
+    def _accumulator_class(self, ci):
+        """{'fresh': fields that every instance of the repository class `ci` creates as its own empty list, 'ctor': the
+        constructor's parameters, 'appenders': {method: (field, parameter)} for the methods that do nothing but append their
+        one argument to such a field, 'readers': methods that neither write a field nor alter one in place}; None when the
+        class is not of that plain kind.  A list in the CLASS body (`parts: list = []`) is one object shared by all
+        instances: it is not a fresh field."""
+        k = ('acc', id(ci.node))
+        if k in self._opened:
+            return self._opened[k]
+        out = self._opened[k] = None
+        if len(ci.mro()) != 1 or any(b not in ('object',) for b in ci.base_exprs) or ci.node.keywords:
+            return None
+        decos = [ast.unparse(d) for d in ci.node.decorator_list]
+        fresh, init = set(), ci.methods.get('__init__')
+        if any(nm in ci.methods for nm in ('__post_init__', '__new__', '__getattr__', '__getattribute__', '__setattr__')):
+            return None
+        if init is not None:
+            if decos or len(init.params) != 1 or init.decorators():
+                return None
+            me = init.params[0]
+            for st in init.node.body:
+                if isinstance(st, ast.Expr) and isinstance(st.value, ast.Constant):
+                    continue
+                t = st.targets[0] if isinstance(st, ast.Assign) and len(st.targets) == 1 else (st.target if isinstance(st, ast.AnnAssign) else None)
+                if not (isinstance(t, ast.Attribute) and isinstance(t.value, ast.Name) and t.value.id == me and self._fresh_list(st.value)):
+                    return None
+                fresh.add(t.attr)
+            if fresh & set(ci.class_assignments()):
+                return None
+        elif any(d.split('(')[0] in ('dataclass', 'dataclasses.dataclass') for d in decos) and len(decos) == 1:
+            for st in ci.node.body:
+                if isinstance(st, (ast.FunctionDef, ast.AsyncFunctionDef)) or (isinstance(st, ast.Expr) and isinstance(st.value, ast.Constant)):
+                    continue
+                v = st.value if isinstance(st, ast.AnnAssign) and isinstance(st.target, ast.Name) else None
+                if not (isinstance(v, ast.Call) and call_name(v) in ('field', 'dataclasses.field') and not v.args and len(v.keywords) == 1
+                        and v.keywords[0].arg == 'default_factory' and norm(v.keywords[0].value) == 'list'):
+                    return None
+                fresh.add(st.target.id)
+        if not fresh:
+            return None
+        appenders, readers = {}, set()
+        for nm, meth in ci.methods.items():
+            if nm == '__init__':
+                continue
+            if meth.decorators() or isinstance(meth.node, ast.AsyncFunctionDef) or not meth.params:
+                return None
+            me = meth.params[0]
+            body = [st for st in meth.node.body if not (isinstance(st, ast.Expr) and isinstance(st.value, ast.Constant))]
+            one = body[0] if len(body) == 1 else None
+            app = None
+            if len(meth.params) == 2 and not meth.node.args.defaults and one is not None:
+                arg = meth.params[1]
+                for f in fresh:
+                    for pat in (f'{me}.{f}.append({arg})', f'{me}.{f} += [{arg}]', f'{me}.{f}.extend([{arg}])', f'{me}.{f} = {me}.{f} + [{arg}]',
+                                f'{me}.{f} = [*{me}.{f}, {arg}]', f'{me}.{f} += ({arg},)', f'{me}.{f}.extend(({arg},))'):
+                        if norm(one) == norm(ast.parse(pat).body[0]):
+                            app = (f, arg)
+            if app is not None:
+                appenders[nm] = app
+                continue
+            # a reader: `self` is only read through its fields, no field is written or altered in place
+            quiet = True
+            for x in ast.walk(meth.node):
+                if isinstance(x, ast.Name) and x.id == me and not (isinstance(_parent(x), ast.Attribute) and isinstance(_parent(x).ctx, ast.Load)):
+                    quiet = False
+                if isinstance(x, ast.Call) and isinstance(x.func, ast.Attribute) and _root_name(x.func.value) == me and \
+                        (x.func.attr in MUTATING_METHODS or x.func.attr in ARRAY_INPLACE_METHODS or
+                         (isinstance(x.func.value, ast.Name) and x.func.attr not in readers)):
+                    quiet = False
+                if isinstance(x, (ast.Subscript, ast.Attribute)) and isinstance(x.ctx, (ast.Store, ast.Del)) and _root_name(x) == me:
+                    quiet = False
+                if isinstance(x, ast.AugAssign) and _root_name(x.target) == me:
+                    quiet = False
+            if quiet:
+                readers.add(nm)
+        if appenders:
+            out = self._opened[k] = {'fresh': fresh, 'appenders': appenders, 'readers': readers}
+        return out
+
+    def _accumulator(self, fi, name, ds, at, stack, depth):
+        """the closed value - a record whose list fields are written out - of a local that holds an ACCUMULATOR OBJECT: bound
+        once to `C()` of a plain repository class whose instances start with their own empty lists, then altered only by
+        statements `name.add(x)` (methods of C that append their argument to such a list) that stand in the same block as
+        the binding, so that each runs exactly once and in source order before the use; the object never leaves the local
+        (every other use reads a field or calls a method of C that only reads).  Else None."""
+        from ..resolve import resolve_class_call
+        view = self.view(fi)
+        binders = [d for d in ds if self._binds(d, name) is not None]
+        if len(binders) != 1 or (name in view.params and view.entry_reaches(at, name)):
+            return None
+        d = binders[0]
+        v = plain_value(d, name)
+        if not isinstance(v, ast.Call) or v.args or v.keywords:
+            return None
+        ci = resolve_class_call(self.prog, fi, v)
+        info = self._accumulator_class(ci) if ci is not None else None
+        if info is None:
+            return None
+        block = next((b for x in ast.walk(fi.node) for f_ in ('body', 'orelse', 'finalbody') for b in [getattr(x, f_, None)]
+                      if isinstance(b, list) and any(y is d for y in b)), None)
+        if block is None:
+            return None
+        # every use of the local in the function: receiver of an appender (a statement of the block) or of a reader, or a field read
+        alters = []
+        for x in walk_no_nested(fi.node):
+            if not (isinstance(x, ast.Name) and x.id == name):
+                continue
+            if isinstance(x.ctx, ast.Store):
+                if stmt_of(x) is not d:
+                    return None
+                continue
+            par = _parent(x)
+            if not (isinstance(par, ast.Attribute) and isinstance(par.ctx, ast.Load)):
+                return None
+            call = _parent(par)
+            if isinstance(call, ast.Call) and call.func is par:
+                if par.attr in info['appenders']:
+                    st = stmt_of(call)
+                    if not (isinstance(st, ast.Expr) and st.value is call and any(y is st for y in block) and len(call.args) == 1
+                            and not call.keywords and not isinstance(call.args[0], ast.Starred)):
+                        return None
+                    alters.append(st)
+                elif par.attr not in info['readers']:
+                    return None
+            elif par.attr not in info['fresh']:
+                return None
+        reaching = [x for x in ds if x is not d]
+        if any(not any(x is a for a in alters) for x in reaching):
+            return None
+        fields = {f: [] for f in sorted(info['fresh'])}
+        for st in sorted(reaching, key=lambda s_: (s_.lineno, s_.col_offset)):
+            f, _ = info['appenders'][st.value.func.attr]
+            fields[f].append(self.close(fi, st.value.args[0], st, frozenset(), stack, depth + 1))
+        tag = f'{ci.file}::{ci.name}'
+        _REC_CLASSES[tag] = ci
+        r = _mk('REC__', ast.Constant(tag))
+        r.keywords = [ast.keyword(arg=f, value=ast.List(elts=vals, ctx=ast.Load())) for f, vals in fields.items()]
+        return r
+
+    def _reselect(self, v):
+        """closed value `v` after a record has been put in the place of a method's `self`: field reads, positions of displays
+        and of `zip(*rows)`, and `*display` arguments are taken apart again (bottom-up)"""
+        values = self
+
+        class T(ast.NodeTransformer):
+            def visit_Attribute(self, n):
+                self.generic_visit(n)
+                sel = values._select(n.value, n.attr) if is_mk(n.value, 'REC__') else None
+                return tcopy(sel) if sel is not None else n
+
+            def visit_Subscript(self, n):
+                self.generic_visit(n)
+                if isinstance(n.slice, ast.Constant) and isinstance(n.slice.value, int) and not isinstance(n.slice.value, bool):
+                    sel = values._select(n.value, n.slice.value)
+                    if sel is not None:
+                        return tcopy(sel)
+                return n
+
+            def visit_Call(self, n):
+                self.generic_visit(n)
+                if any(isinstance(a, ast.Starred) and isinstance(a.value, (ast.Tuple, ast.List)) and
+                       not any(isinstance(y, ast.Starred) for y in a.value.elts) for a in n.args):
+                    args = []
+                    for a in n.args:
+                        if isinstance(a, ast.Starred) and isinstance(a.value, (ast.Tuple, ast.List)) and \
+                                not any(isinstance(y, ast.Starred) for y in a.value.elts):
+                            args += a.value.elts
+                        else:
+                            args.append(a)
+                    n.args = args
+                return n
+        return T().visit(v)
 
     def _bound_value(self, fi, name, d, stack, depth):
         """closed value that statement `d` binds `name` to; None when `d` changes the object in place; 'loop' for
@@ -1364,6 +1566,17 @@ class Values:
             return ast.IfExp(test=v.test, body=a, orelse=b) if a is not None and b is not None else None
         if isinstance(step, int) and isinstance(v, (ast.Tuple, ast.List)) and not any(isinstance(x, ast.Starred) for x in v.elts):
             return v.elts[step] if -len(v.elts) <= step < len(v.elts) else None
+        if isinstance(step, int) and isinstance(v, ast.Call) and isinstance(v.func, ast.Name) and v.func.id == 'zip' and not v.keywords \
+                and v.args:
+            # position `step` of what `zip(*rows)` / `zip(row, row, ...)` is unpacked into: that position of every row
+            rows = v.args
+            if len(rows) == 1 and isinstance(rows[0], ast.Starred) and isinstance(rows[0].value, (ast.Tuple, ast.List)):
+                rows = rows[0].value.elts
+            if rows and not any(isinstance(x, ast.Starred) for x in rows):
+                sel = [self._select(x, step) for x in rows]
+                if all(x is not None for x in sel):
+                    return ast.Tuple(elts=sel, ctx=ast.Load())
+            return None
         if is_mk(v, 'REC__'):
             fields = [k.arg for k in v.keywords]
             if isinstance(step, int) and -len(fields) <= step < len(fields):
@@ -1639,7 +1852,10 @@ class Values:
                     f2, n2, _, _ = self._muts[x.args[0].value]
                     if f2.node is callee.node and n2 in cview.params:
                         return plain
-            outs.append(_subst(v, binding))
+            v = _subst(v, binding)
+            if any(is_mk(b_, 'REC__') for b_ in binding.values()):
+                v = self._reselect(v)
+            outs.append(v)
         uniq = []
         for v in outs:
             if not any(ast.dump(v) == ast.dump(u) for u in uniq):
@@ -3207,6 +3423,12 @@ def rule_suffix(ctx, m, rule='C04-R4', tracked=SHARE_ROLES, outputs=range(6)):
                             env = dict(env, **{g.target.elts[0].id: bz['P_'], g.target.elts[1].id: bz['Q_']})
                             collect(e.elt, env)
                             return
+                        if bz is not None and isinstance(g.target, ast.Name) and not g.ifs:
+                            # `join(pair) for pair in zip(P, Q)`: the pair is (element of P, element of Q)
+                            a_, b_ = f'{g.target.id}__0', f'{g.target.id}__1'
+                            pair = ast.Tuple(elts=[ast.Name(id=a_, ctx=ast.Load()), ast.Name(id=b_, ctx=ast.Load())], ctx=ast.Load())
+                            collect(canon(_subst(e.elt, {g.target.id: pair})), dict(env, **{a_: bz['P_'], b_: bz['Q_']}))
+                            return
                     bj = pm_any(['np.concatenate((A_, B_))', 'np.hstack((A_, B_))', 'np.append(A_, B_)', 'np.concatenate((A_, B_), axis=0)',
                                  'np.r_[A_, B_]'], e) if isinstance(e, (ast.Call, ast.Subscript)) else None
                     if bj is not None:
@@ -3336,6 +3558,44 @@ def _record_forwarding(ctx, V, pend, rule, fi, c, callee, bind, tracked, consequ
     return n
 
 
+class _SisterCtx:
+    """the rule context as seen by a rule of a sister module that is run for THIS property: the same state (one shared
+    __dict__: obligations, floors, controls, cached values), every rule id of the sister (`C05-R10`, `C05-R10/tests`)
+    reported under this property's id, and this property's consequence appended to what a violation says"""
+
+    def __init__(self, ctx, theirs, ours, consequence):
+        self.__dict__ = ctx.__dict__
+        self.__class__ = type('_SisterCtxOf' + type(ctx).__name__, (type(ctx),), {
+            'ob': lambda s_, rule, where, construct, ok, why, **kw:
+                type(ctx).ob(s_, _SisterCtx.rid(rule, theirs, ours), where, construct, ok,
+                             why if ok else f'{why}. {consequence}', **kw),
+            'floor': lambda s_, rule, *a, **kw: type(ctx).floor(s_, _SisterCtx.rid(rule, theirs, ours), *a, **kw),
+            'control': lambda s_, rule, *a, **kw: type(ctx).control(s_, _SisterCtx.rid(rule, theirs, ours), *a, **kw),
+            'undecided': lambda s_, rule, *a, **kw: type(ctx).undecided(s_, _SisterCtx.rid(rule, theirs, ours), *a, **kw),
+        })
+
+    @staticmethod
+    def rid(rule, theirs, ours):
+        return ours + rule[len(theirs):] if isinstance(rule, str) and rule.startswith(theirs) else rule
+
+
+def rule_crossing(ctx, m, rule='C04-R8'):
+    """R8: the segment that is split in proportion to the two part lengths is the segment that crosses the antimeridian
+    (position of the first non-zero signed flag; sign read there; flags tested `!= 0`) - decided by c05.rule_crossing_index"""
+    from .c05 import rule_crossing_index
+    theirs = 'C05-R10'
+    before = set(ctx.rules_run)
+    sister = _SisterCtx(ctx, theirs, rule,
+                        'The segment that does cross stays inside one part and is gridded as a straight map line around the globe: '
+                        'its pieces add up to many times the segment\'s integrated values, so the gridded total is not the '
+                        'trajectory total')
+    try:
+        rule_crossing_index(sister, m)
+    finally:
+        for k in [k for k in ctx.rules_run if k.startswith(theirs) and k not in before]:
+            ctx.rules_run[_SisterCtx.rid(k, theirs, rule)] = ctx.rules_run.pop(k)
+
+
 def view_defs(V, fi, name):
     """statements of `fi` that rebind the parameter `name`"""
     return [st for t, st, how in stores_to(fi.node) for x in ast.walk(t) if isinstance(x, ast.Name) and x.id == name]
@@ -3360,6 +3620,8 @@ def run(ctx):
         # the horizontal cells a segment's pieces are cut at come from searching the axes themselves (shares sum to one
         # only if the start/end cells and the midpoint cells are found the same way)
         lambda: rule_lookup(ctx, m, 'C04-R7'),
+        # the element that is split in two is the one that crosses (the position of the first non-zero signed flag)
+        lambda: rule_crossing(ctx, m),
     ])
     ctx.note('NOT decided: the numeric conservation bound, grid-line intersection geometry, great-circle vs map-line lengths')
     ctx.assumptions += ['np.divide(out=, where=) leaves `out` untouched where the guard is false',
